@@ -82,7 +82,7 @@ def run(tier, seed):
         for c in cat.cases("quick", "forward"):
             pats = c.get("pats") or ["generic"]
             if "generic" in pats and "offset" not in pats and c["op"] not in ("dropout",):
-                for m in (("tiny", "large") if c["op"] == "batch_norm" else ("tiny", "large", "offset")):
+                for m in (("tiny", "large", "zeros", "ones") if c["op"] == "batch_norm" else ("tiny", "large", "offset", "zeros", "ones")):
                     cases.append(dict(c, vmod=m))
     r = engine.run_cases(cases, judge)
     cov = {"evaluations": r["evaluations"], "distinct_nontrivial": r["distinct_nontrivial"],
